@@ -893,6 +893,10 @@ def main():
         if d["capped"] or u["capped"]:
             res["not_compared"] = "the explorer stopped at its violation cap (violations are being reported)"
         rep.part("xcheck:" + name, cfg=cfg_id(cfg), opset=opset, clock_ticks=list(clocks), **res)
+        if "not_compared" not in res and (d["sigs"] or n["sigs"] or u["sigs"]):
+            # with violations the runs stop expanding at different places; the violations themselves are reported
+            res["not_compared"] = "violations were found in a cross-check run (reported); fingerprint sets are only compared on a silent tree"
+            rep.part("xcheck:" + name, cfg=cfg_id(cfg), opset=opset, clock_ticks=list(clocks), **res)
         if "not_compared" in res:
             continue
         if not (res["same_fingerprints"] and res["same_verdict"]) or u["states"] < len(d["keys"]):
